@@ -195,11 +195,12 @@ Qed.
 
 Theorem message_wf (e : err) : err_wf e = true -> msg_wf (message e) = true.
 Proof.
-  induction e as [c|t|k m|t e IH|o e IH]; cbn [err_wf message]; intros H.
+  induction e as [c|t|k m|t e IH|t e IH|o e IH]; cbn [err_wf message]; intros H.
   - reflexivity.
   - exact H.
   - unfold msg_wf in *. cbn [forallb adjacent_ok tok_wf]. exact H.
   - apply andb_true_iff in H as [Ht He]. apply msg_wf_wrap; auto.
+  - apply andb_true_iff in H as [Ht _]. exact Ht.
   - apply andb_true_iff in H as [Ho He]. specialize (IH He).
     unfold msg_wf in *. apply andb_true_iff in IH as [H1 H2].
     cbn [forallb adjacent_ok tok_wf sep no_occurrence starts_with marker_bytes].
